@@ -154,9 +154,12 @@ def corrupt_future(cases):
     c = copy.deepcopy(c0)
     i = idx(lambda e: e["e"] == "Round")
     moved = [x for x in c[i]["stored"] if x not in c0[0]["stored"]][-1:]
-    c[i]["stored"] = [x for x in c[i]["stored"] if x not in moved]
-    c[i]["cache"] = sorted(c[i]["cache"] + moved)                  # the round left the last block of the cached chain behind
-    out.append(("futureblocks-chain-not-in-one-round", c))
+    prev = set(c0[0]["stored"]) | {e["id"] for e in c0[:i] if e["e"] == "Push" and e["out"] == "imported"}
+    moved = [x for x in moved if x not in prev]
+    if moved:                                                      # (void if the chain was not cached in this run)
+        c[i]["stored"] = [x for x in c[i]["stored"] if x not in moved]
+        c[i]["cache"] = sorted(c[i]["cache"] + moved)              # the round left the last block of the cached chain behind
+        out.append(("futureblocks-chain-not-in-one-round", c))
     edge = [i for i, e in enumerate(c0) if e["e"] == "Push" and e.get("note") == "timestamp-equals-now-plus-interval" and e["lo"] == e["hi"]]
     if edge:
         c = copy.deepcopy(c0)
@@ -190,6 +193,7 @@ def future_step(ctx, drifts):
     ctx.cov["futureblocks_evictions_seen"] = sum(1 for i, e in enumerate(events) if e["e"] == "Push" and e["out"] == "cached"
                                                  and len(e["cache"]) == 32 and i > 0 and len(events[i - 1].get("cache", [])) == 32)
     ctx.cov["futureblocks_chain_imported_in_one_round"] = fu["chainImportedInOneRound"]
+    ctx.cov["futureblocks_chain_was_cached_before_the_round"] = fu.get("chainWasCached")
     ctx.cov["futureblocks_edge_pushes_within_one_second"] = fu["edgePushesInOneSecond"]
     ctx.cov["futureblocks_cache_at_end"] = fu["cacheAtEnd"]
     ctx.cov["traces_validated_against_impl"] += acc
